@@ -217,6 +217,7 @@ type Gen struct {
 	structs map[string]*types.Struct // declared datatypes
 	strLits map[string]string
 	tags    map[string]int
+	tagTypes []types.Type
 	maxInline int
 	curTop  string
 	funcByKey map[string]*ssa.Function
@@ -565,13 +566,15 @@ func (g *Gen) uintLit(v uint64, srt string) string {
 }
 
 func (g *Gen) typeTag(t types.Type) int {
-	k := types.TypeString(types.Unalias(t), nil)
-	if n, ok := g.tags[k]; ok {
-		return n
+	t = types.Unalias(t)
+	for i, u := range g.tagTypes {
+		if types.Identical(t, u) {
+			return i + 1
+		}
 	}
-	n := len(g.tags) + 1
-	g.tags[k] = n
-	return n
+	g.tagTypes = append(g.tagTypes, t)
+	g.tags[types.TypeString(t, nil)] = len(g.tagTypes)
+	return len(g.tagTypes)
 }
 
 // ---------------------------------------------------------------------------
